@@ -76,7 +76,7 @@ def run(ctx):
                           maxdata=MAXDATA))
 
     # A. random specification-valid files, 1 rank, the chunk sizes of the property text
-    nf = 400 if thorough else 80
+    nf = 1000 if thorough else 80
     for k in range(nf):
         r = ctx.rng.fork('file-%d' % k)
         f = G.gen_file(r)
@@ -84,7 +84,7 @@ def run(ctx):
         for ch in (36, 40, 64, 128, 4096, None):
             add_case('r%d' % k, ch)
     # B. 2 and 3 ranks, header read collectively / by root only, independent reads too
-    nm = 40 if thorough else 10
+    nm = 80 if thorough else 10
     for k in range(nm):
         for np_ in (2, 3):
             for hint in ('romio_no_indep_rw=true', 'romio_no_indep_rw=false'):
